@@ -499,6 +499,37 @@ pub fn run_case(out: &mut Out, c: &Case, tag: &str) {
     }
 }
 
+/// a tuple `(a, b)` sent through the real tuple type: both members must read back as sent (what the second slot
+/// carries must be in force when the send returns, not when some later frame arrives)
+pub fn run_tuple_case(out: &mut Out, ndev: usize, history: &[Spec], a: &Spec, b: &Spec) {
+    let mut s = Session::new(out, ndev, T0);
+    s.send(&Spec::Clear);
+    for h in history {
+        s.send(h);
+    }
+    if s.dead {
+        return;
+    }
+    let (before_a, before_b) = (other_hashes(&s.w, a), other_hashes(&s.w, b));
+    let ans = s.pair_real(a, b);
+    let log = s.log.clone();
+    let ok = ans.starts_with("R=ok");
+    let mut verdict = None;
+    if ans == "panic" {
+        verdict = Some("the implementation panicked on the tuple".to_string());
+    } else if ok {
+        // `other segment untouched` is judged for a member only when the other member does not write that kind of memory
+        let same_side = touches(a).iter().any(|r| touches(b).contains(r));
+        verdict = check_probe(&s.w, b, if same_side { &[] } else { &before_b }).map(|w| format!("second member: {w}")).or_else(|| check_probe(&s.w, a, if same_side { &[] } else { &before_a }).map(|w| format!("first member: {w}")));
+    }
+    out.case(if ok { Some(fnv64(format!("tuple|{}|{}|{}", ndev, a.text(), b.text()).as_bytes())) } else { None });
+    out.count("probe:tuple");
+    out.count(if ok { "accepted" } else { "rejected" });
+    if let Some(what) = verdict {
+        out.violation(format!("C01:({} , {})", a.text(), b.text()), what, log);
+    }
+}
+
 fn probe_tr(s: &Spec) -> Option<(u8, u64)> {
     match s {
         Spec::Mod { tr, .. } | Spec::Foci { tr, .. } | Spec::GainStm { tr, .. } | Spec::Gain { tr, .. } => *tr,
@@ -787,6 +818,26 @@ pub fn run(args: &Args) {
                     }
                     history.extend([first, back, target]);
                     run_case(&mut out, &Case { ndev: 1, history, probe }, if mirror { "swap-mirrored" } else { "swap" });
+                }
+            }
+        }
+    }
+    // ---- tuples: a flag / configuration datagram travelling in the second slot behind every kind of first member
+    // (single frame, last frame of a multi-frame one), read back straight after the send
+    {
+        let firsts = [
+            Spec::SilSteps(3, 7, false),
+            Spec::Gain { seg: 1, tr: None, seed: 120 },
+            Spec::Mod { seg: 0, tr: None, rep: 0xFFFF, div: 10, n: 200, seed: 121 },
+            Spec::Mod { seg: 1, tr: None, rep: 0xFFFF, div: 10, n: 1000, seed: 122 },
+            Spec::SwapMod(0, (0xFF, 0)),
+            Spec::Pwe(123),
+        ];
+        let seconds = [Spec::Fan(true), Spec::GpioIn(0b0110), Spec::Reads(true), Spec::CpuGpio(0xA0), Spec::Debug([0x21u64 << 56 | 5, 0, 0x10u64 << 56, 0]), Spec::SilRate(9, 11)];
+        for (i, a) in firsts.iter().enumerate() {
+            for (j, b) in seconds.iter().enumerate() {
+                if thorough || (i + j) % 2 == 0 {
+                    run_tuple_case(&mut out, 1 + (i + j) % 2, &[Spec::Fan(false), Spec::GpioIn(0)], a, b);
                 }
             }
         }
